@@ -35,8 +35,8 @@ THEOREMS = [
         "unary", "unary_type", "compare", "bool_refused", "other_operators_refused",
         "const_typing", "guess_type_legacy", "set_var_cast", "acc_wide_enough", "agg_refusals",
         "count_correct", "sum_correct", "maxmin_correct_partial", "clamp_sum_correct", "cond_arm", "cond_shape", "boolop_truth",
-        "mod_float_counterexample", "neg_bool_counterexample", "not_float_counterexample",
-        "not_float_kind_counterexample", "cond_int_counterexample", "max_int_counterexample", "mod_negative_differs",
+        "mod_float_counterexample", "neg_bool_counterexample", "not_real_is_bool",
+        "not_real_then_div_refused", "cond_int_counterexample", "max_int_counterexample", "mod_negative_differs",
         "evalX_conservative", "storeX_conservative", "evalCondX_conservative", "size_cast_int", "unsigned_count_differs",
     ]
 ]
@@ -183,7 +183,38 @@ def table_cases(thorough: bool = True) -> List[Tuple[str, str, Dict[str, Any]]]:
     ):
         for f in X.row_forms(cols):
             out.append(("multi-column", "evt", f))
-    out += sign_cases(thorough) + wide_cases(thorough)
+    out += sign_cases(thorough) + wide_cases(thorough) + not_cases()
+    return out
+
+
+def not_cases() -> List[Tuple[str, str, Dict[str, Any]]]:
+    """`not` on an operand of every kind (a truth value whatever the operand: a bool column), followed by each consumer:
+    `/` and the other arithmetic operators (a boolean operand: refused or correct, never a bool/int integer division),
+    `**`, comparisons, a real partner, a conditional's test and arms, a fold"""
+    out = []
+    for level in ("jet", "evt"):
+        d, i = X.leaf(level, "d"), X.leaf(level, "i")
+        kinds = X.KINDS if level == "jet" else ["intCount", "double"]
+        for k in kinds:
+            for v in ((0, 2) if level == "jet" and k in ("double", "bool") else (0,)):
+                n = X.unop("Not", X.operand(k, level, False, variant=v))
+                for op in ("Div", "Add", "Mult", "Mod", "Pow"):
+                    out.append(("not-then", level, X.form_plain(X.binop(op, n, X.int_lit(2)))))
+                    out.append(("not-then", level, X.form_plain(X.binop(op, d if op != "Mod" else i, n))))
+                out.append(("not-then", level, X.form_plain(X.binop("Div", X.binop("Div", n, X.int_lit(2)), d))))
+                out.append(("not-then", level, X.form_plain(X.unop("Not", n))))
+                out.append(("not-then", level, X.form_plain(X.unop("USub", n))))
+                out.append(("not-then", level, X.form_plain(X.cmpop("Lt", n, i))))
+                out.append(("not-then", level, X.form_plain(X.cmpop("Eq", d, n))))
+                out.append(("not-then", level, X.form_cond(n, d, X.flt_lit(2.5))))
+                out.append(("not-then", level, X.form_cond(n, X.binop("Div", i, X.int_lit(2)), X.flt_lit(0.5))))
+                out.append(("not-then", level, X.form_cond(X.cmpop("Gt", d, X.int_lit(1)), n, X.flt_lit(0.5))))
+    acc = X.acc_leaf()
+    for k in ("i", "f", "d"):
+        n = X.unop("Not", X.leaf("jet", k))
+        out.append(("not-then", "jet", X.form_agg(X.int_lit(0), {"plain": X.binop("Add", acc, n)})))
+        out.append(("not-then", "jet", X.form_agg(X.flt_lit(0.5), {"plain": X.binop("Add", acc, X.binop("Div", n, X.int_lit(2)))})))
+        out.append(("not-then", "jet", X.form_agg(X.int_lit(0), {"cond": [n, acc, X.binop("Add", acc, X.leaf("jet", "d"))]})))
     return out
 
 
@@ -595,7 +626,7 @@ def run(ctx):
     )
     ctx.extra_cov["excluded_input_space"] = (
         "defect exclusions (exercised only through known_findings.jsonl; correspondence still checked): % with a real "
-        "operand; not on a real operand; unary minus on a bool; conditionals (and Max/Min) whose arms are all integer-valued"
+        "operand; unary minus on a bool; conditionals (and Max/Min) whose arms are all integer-valued"
     )
     # 3. thorough: the compiled job
     if ctx.tier == "thorough":
@@ -688,7 +719,7 @@ LEVEL_TEXT = (
     "operator x operand-kind table as its depth-one instance for every operator of the tables regenerated from the source "
     "(binop_table, unary, compare, pow_real, intdiv_real); most_accurate_type returns the widest for lists of any length; "
     "accumulator typing, Count/Sum/Max/Min folds over lists of any length, the conditional, the set_var cast rule, the exact "
-    "refusals. Four defect classes are proved as counterexamples and excluded by decidable hypotheses. The model is tied to "
+    "refusals. Three defect classes are proved as counterexamples and excluded by decidable hypotheses. The model is tied to "
     "the code by text equality of the real translator's output on every table cell and on random trees each run; the Spec "
     "is evaluated on the implementation's own text (quick) and on the values of the g++-compiled job (thorough)."
 )
@@ -696,7 +727,7 @@ LEVEL_NOTE = (
     "Theorem: everything stated over the model (all depths, all values, all list lengths). Sampled: the model's agreement "
     "with the Python source (differential, every cell + random trees per run), evalC's agreement with g++ and evalPy's "
     "with CPython (every sample). Trusted: Lean kernel (axioms audited), the readers of the generated text, g++/libm, "
-    "float32 precision not modelled, int overflow excluded. Exclusions (known findings): % on reals, not on reals, unary "
+    "float32 precision not modelled, int overflow excluded. Exclusions (known findings): % on reals, unary "
     "minus on bool, integer-valued conditionals / Max / Min declared double."
 )
 TECHNIQUE = "Lean 4 theorems over a hand model + generated operator/priority tables (translator) + differential correspondence against the real translator, CPython and g++"
